@@ -1,11 +1,11 @@
 package c15
 
 import (
-	"math"
-	"math/big"
-	"io"
 	"bytes"
 	"fmt"
+	"io"
+	"math"
+	"math/big"
 	"sort"
 	"strconv"
 	"strings"
